@@ -33,7 +33,7 @@ var getters2D = []string{"qr.(*qrcode).Content", "qr.(*qrcode).Metadata", "qr.(*
 var props = []*PropDef{
 	{
 		ID:     "C01",
-		Funcs:  []string{"qr.findSmallestVersionInfo", "qr.addPaddingAndTerminator", "qr.encodeNumeric", "qr.encodeUnicode", "qr.stringToAlphaIdx$1", "qr.encodeAlphaNumeric", "qr.encodeAuto"},
+		Funcs:  []string{"qr.findSmallestVersionInfo", "qr.addPaddingAndTerminator", "qr.encodeNumeric", "qr.encodeUnicode", "qr.stringToAlphaIdx$1", "qr.encodeAlphaNumeric", "qr.encodeAuto", "qr.(Encoding).getEncoder"},
 		Unwind: []*Unwinder{unwQR, unwQRBlocks, unwSelect},
 		Tables: []string{"qr/versionInfos", "qr/charCountBits", "qr/formatInfos", "qr/alignment", "gf/fields"},
 		Harness: []Harness{
@@ -149,7 +149,7 @@ var props = []*PropDef{
 		Unwind: []*Unwinder{unwEAN, unwPDF, unwAztec, unwDM, unwSelect, unwQRBlocks},
 		Funcs: append(append([]string{}, bitlistFuncs...), "utils.(*GaloisField).Multiply", "utils.(*GaloisField).Divide", "utils.(*GaloisField).Invers",
 			"twooffive.EncodeWithColor", "twooffive.Encode", "twooffive.AddCheckSum", "codabar.EncodeWithColor", "codabar.Encode", "code39.EncodeWithColor", "code39.Encode", "datamatrix.addPadding", "datamatrix.encodeText",
-			"qr.findSmallestVersionInfo", "qr.addPaddingAndTerminator", "qr.encodeNumeric", "qr.encodeUnicode", "qr.stringToAlphaIdx$1", "qr.encodeAlphaNumeric", "qr.encodeAuto"),
+			"qr.findSmallestVersionInfo", "qr.addPaddingAndTerminator", "qr.encodeNumeric", "qr.encodeUnicode", "qr.stringToAlphaIdx$1", "qr.encodeAlphaNumeric", "qr.encodeAuto", "qr.(Encoding).getEncoder"),
 		Harness: []Harness{
 			{Pkg: "qr", File: "c01_qr_test.go", Run: "^TestVerifC10QR$", Bound: boundedNote + "no panic, result xor error, accept iff expressible in the mode and within version-40 capacity"},
 			{Pkg: "datamatrix", File: "c02_dm_test.go", Run: "^TestVerifC10DM$", Bound: boundedNote + "accept iff <= 1558 ASCII-encodation codewords"},
